@@ -1,7 +1,8 @@
 SPECIFICATION Spec
 CONSTANTS MaxHist = 2
   CfgIds = {1, 2, 3, 4}
-  DeepCfgIds = {1, 2, 3, 4}
+  DeepCfgIds = {1, 2}
   StmtAct = TRUE
+  LibIds <- AllLibIds
 INVARIANTS TypeOK ResetRestores Laws
 PROPERTY Untouched
